@@ -25,6 +25,11 @@ type scriptConn struct {
 	now       func() time.Time
 	log       []string // ordered: W<ms> / w / R<ms> / r
 	failWrite bool
+	// timeoutAt: the write with this index (0 = first) fails with a time-out after 0 bytes; later writes work again
+	// (a full socket buffer that drains later). -1 = never.
+	timeoutAt  int
+	attempts   int
+	afterFault [][]byte // what was written after the failed write
 }
 
 type deadlineCall struct {
@@ -59,6 +64,13 @@ func (c *scriptConn) Write(p []byte) (int, error) {
 	c.log = append(c.log, "w")
 	if c.closed || c.failWrite {
 		return 0, net.ErrClosed
+	}
+	c.attempts++
+	if c.timeoutAt > 0 && c.attempts == c.timeoutAt+1 {
+		return 0, os.ErrDeadlineExceeded
+	}
+	if c.timeoutAt > 0 && c.attempts > c.timeoutAt+1 {
+		c.afterFault = append(c.afterFault, append([]byte{}, p...))
 	}
 	k := len(c.writes)
 	c.writes = append(c.writes, append([]byte{}, p...))
